@@ -100,12 +100,12 @@ def as_big(eng, v, fr=None):
 
 
 # ---------------------------------------------------------------- BigInt
-@model(r'^(classic::clvm::__type_compatibility__::)?bi_one$|^<BigInt as One>::one$')
+@model(r'^(classic::clvm::__type_compatibility__::)?bi_one$|^<BigInt as One>::one$|^(num_traits::)?one::<BigInt>$')
 def _bi_one(eng, m, args, fr, dty):
     return bigval(eng, 1)
 
 
-@model(r'^(classic::clvm::__type_compatibility__::)?bi_zero$|^<BigInt as Zero>::zero$|^<BigInt as Default>::default$')
+@model(r'^(classic::clvm::__type_compatibility__::)?bi_zero$|^<BigInt as Zero>::zero$|^<BigInt as Default>::default$|^(num_traits::)?zero::<BigInt>$')
 def _bi_zero(eng, m, args, fr, dty):
     return bigval(eng, 0)
 
